@@ -11,7 +11,7 @@ Extraction "bbmodel_core.ml"
   subspace intersect merge space_key in_space eqb_space
   percolate_strict_b percolate_strict_ord conflicts_b single_ldois single_drivers
   pn_faithful_b restrict_pn reduce_pn pn_sources trap_program deadlock_program net_to_pn
-  override forced_b successions find_drivers drivers_of_succession succession_control
+  override forced_b successions find_drivers drivers_of_succession succession_control succession_control_ff
   compute_candidates heuristic_retained nfvs_reduction_ok_b same_assignment_b
   expand_block expand_aseeds no_neg_walk_b
   expand_aseeds_log expand_block_log nfvs_log_ok_b clean_log_ok_b nfvs_entry_ok_b clean_entry_ok_b block_clean_b
